@@ -27,10 +27,10 @@ CHECKS = {
    text="Model.batch_evaluate_* driven through a simulated pool: exhaustive grid (batch 0..12 x chunk sizes x pool sizes 0..4 x four model kinds x physical/unit-hypercube) with seeded task schedules per pooled cell (all permutations for <=4 tasks), a Hypothesis stateful machine over call sequences with pool reconfiguration, real fork pools in the thorough tier. Values bitwise equal to pointwise evaluation, arguments seen exactly once, counter += N once.",
    note="Simulated pool implements Pool.map semantics (results by task index); schedules sampled, grid enumerated.", technique="deterministic simulation: seeded task schedules of a cooperative pool + exhaustive small grid"),
  "C11": dict(level="fault_enumeration", ref="5.11",
-   text="Every fs event of the selected checkpoints and weights saves of a matrix of scenarios is a kill point (after the op, and inside each write at byte prefixes; thorough: every byte of the weights file); after each kill a fresh process resumes and must construct, hold exactly the last completed checkpoint (digest equality), start afresh if none completed, and run on to a result passing the in-run and result invariants. Complete for process-kill faults of the enumerated scenarios, sampled over scenarios.",
+   text="Every fs event of the selected checkpoints and weights saves of a matrix of scenarios is a kill point (after the op, and inside each write at byte prefixes; thorough: every byte of the first weights file of the base scenarios, every ~1/400 plus write boundaries elsewhere); second generation: after a first kill that leaves only .old / a torn temp / a completed checkpoint, the restored run is killed again at every fs event of its first checkpoint; after each kill a fresh process resumes and must construct, hold exactly the last completed checkpoint (digest equality), start afresh if none completed, and run on to a result passing the in-run and result invariants. Complete for process-kill faults of the enumerated scenarios, sampled over scenarios.",
    note="Process-kill model (data handed to the kernel survives; no power loss). " + SIM_NOTE, technique="deterministic simulation: fs-event trace recording + exhaustive kill-point enumeration with restart in a fresh process"),
  "C12": dict(level="exploration", ref="5.12",
-   text="Kill/resume chains of length 1-5 for both samplers on a virtual clock: digest of the sampler when each checkpoint was written vs after FlowSampler(resume=True) in a fresh process (field by field); likelihood-evaluation counter = value resumed from + points counted at the model API; sampling/training/likelihood times inside a two-sided band that excludes downtime and double counting; resumed runs must complete and pass the run and result invariants.",
+   text="Kill/resume chains of length 1-5 for both samplers on a virtual clock (kills at likelihood calls and fs events incl. torn writes, signals at line events, and targeted signals that arrive while a checkpoint is being written): digest of the sampler when each checkpoint was written vs after FlowSampler(resume=True) in a fresh process (field by field); likelihood-evaluation counter = value resumed from + points counted at the model API; sampling/training/likelihood times inside a two-sided band that excludes downtime and double counting; resumed runs must complete and pass the run and result invariants.",
    note=SIM_NOTE, technique="deterministic simulation: kill/resume chains with virtual clock, state digests and evaluation accounting"),
  "C13": dict(level="fault_enumeration", ref="5.13",
    text="The signal handler nessai registered is invoked before line events of a recorded run: every line event of ordinary iterations, of finalise and of checkpoint windows; first/second/last (+ seeded sample) occurrence of each distinct source line inside training/population windows; SIGTERM (thorough: also SIGINT, SIGALRM). Exit code, resumability in a fresh process, dead/live bookkeeping and result invariants; INS: last iteration-boundary checkpoint byte-identical.",
@@ -42,7 +42,7 @@ CHECKS = {
    text="Per-iteration stopping-rule monitor for both samplers (compared quantity recomputed from the state / samples, first-allowed-stop check, history values) and repeated run / resume-after-finish histories (two re-runs in process, two fresh incarnations from the final checkpoint) with a likelihood-call counter at the model seam.",
    note=SIM_NOTE + " Idempotence judged for converged runs only.", technique="deterministic simulation: stopping-rule monitor + rerun / resume-after-finish histories with a call-counting model seam"),
  "C17": dict(level="exploration", ref="5.17",
-   text="In-run clauses only: at every iteration of simulated INS runs the chosen threshold is a live sample's likelihood, min_samples / min_remove / max_samples clamps hold, proposals train on >= min_samples, and the weighted quantile on each live set is monotone, in range and equals Harrell-Davis for equal weights.",
+   text="In-run clauses only: at every iteration of simulated INS runs (swarm plus targeted worlds with min_remove of a quarter to a half of nlive) determine_log_likelihood_threshold returns (never raises) a live sample's likelihood, min_samples / min_remove / max_samples clamps hold, proposals train on >= min_samples, and the weighted quantile on each live set is monotone, in range and equals Harrell-Davis for equal weights.",
    note=SIM_NOTE + " Arbitrary weight vectors that no run reaches are out of family.", technique="deterministic simulation: threshold monitor in seeded INS runs"),
  "C19": dict(level="exploration", ref="5.19",
    text="Real-run clause only: at the end of simulated runs (both samplers, hdf5/h5/json, resumed and capped histories, non-serialisable kwargs) the result file is read back and compared field by field with the in-memory results; config.json must parse.",
